@@ -87,7 +87,7 @@ CLAIMED = {
     "C08": dict(
         category="fault_enumeration",
         ref="DESIGN.md §5 C08, §3.3",
-        technique="deterministic simulation with fault injection at the syscall seam: for each seeded program the single-fault space of `lace compile` is enumerated (assembly failure at every statement position; ENOSPC/EIO/EINTR/sticky/short write and a crash (SIGKILL) right before and right after every mutating file-system call; /dev/full; RLIMIT_FSIZE at every byte; uncreatable destinations) plus sampled double faults",
+        technique="deterministic simulation with fault injection at the syscall seam: for each seeded program the single-fault space of `lace compile` is enumerated (assembly failure at every statement position; ENOSPC/EIO/EINTR/sticky/short write and a crash (SIGKILL) right before and right after every mutating file-system call; /dev/full; RLIMIT_FSIZE at every byte; uncreatable destinations) plus sampled double faults; for every fourth program two compile processes to one destination under a scheduler that grants their file-system calls one at a time (all 20 interleavings, plus seeded ones with a failing call)",
         text="For every sampled program (half with a planted emission failure at a random statement k) every single fault of the compile process is injected, by ordinal of mutating call measured on a fault-free run, and the all-or-nothing predicate over (exit status, destination before/after) is evaluated; destination pre-existing or absent. Complete over single faults per program, sampled over programs and double faults.",
         note="Trusted: faultfs.so sees every file-system call on the destination directory; kernel-level faults (/dev/full, RLIMIT_FSIZE) confirm independently of the shim. A crash has no exit status: after SIGKILL the destination must be the old state or the complete new file (old-or-new, the usual crash-consistency reading; power loss, i.e. loss of unsynced data, is not modelled).",
     ),
